@@ -209,10 +209,7 @@ Proof.
     + apply N.eqb_eq in E. apply (THREAD (Some tk) th). split; [subst; reflexivity|exact E].
     + assert (NS : forall p, In p sp -> negb (sat_rec (tid s) d p) = true).
       { intros p _. unfold sat_rec. rewrite DT, E. reflexivity. }
-      assert (PIT : pit (r_st (if th =? nthreads s
-                               then {| r_st := s; r_outs := []; r_ok := true; r_disp := DNone; r_panic := true |}
-                               else res s [] true DNone)) = pit s) by (destruct (th =? nthreads s); reflexivity).
-      rewrite PIT. destruct (data_effective (faces s) d); [rewrite (filter_all _ _ NS)|]; eapply Inv_mono; eassumption.
+      cbn [r_st res]. destruct (data_effective (faces s) d); [rewrite (filter_all _ _ NS)|]; eapply Inv_mono; eassumption.
   - apply (THREAD None 0). reflexivity.
 Qed.
 
